@@ -56,7 +56,10 @@ Arguments zv neg limbs%uint63.
 
 Inductive obs :=
 | Panic
-| Ret (snk : list seg) (flushes : list Z) (same_as_to_string : bool) (read_back : option bool).
+| Ret (snk : list seg) (flushes : list Z) (same_as_to_string : bool) (read_back : option bool)
+| TooLong (n : Z).  (* the sink received n bytes, too irregular to embed in a case term (never
+                       happens on a correct writer: the generator makes long outputs from runs only);
+                       only the length is compared *)
 
 Record case := Case { c_buf : Z; c_dbg : bool; c_ops : list op; c_obs : obs }.
 
@@ -66,6 +69,7 @@ Definition model_check (c : case) : bool :=
   match run (c_buf c) (c_dbg c) (c_ops c), c_obs c with
   | None, Panic => true
   | Some (snk, fl), Ret snk' fl' _ _ => zl_eqb snk (expand snk') && zl_eqb fl fl'
+  | Some (snk, _), TooLong n => zlen snk =? n
   | _, _ => false
   end.
 
@@ -146,6 +150,7 @@ Definition spec_check (c : case) : bool :=
            && zl_eqb fl (flush_points (c_ops c) 0)
            && same
            && match rb with Some false => false | _ => true end
+       | TooLong n => zlen (concat (map sp_op (c_ops c))) =? n
        end.
 
 (** for replay files: what the model delivers, with runs compressed again *)
